@@ -9,7 +9,7 @@ import (
 // C16: set commands against reference finite sets.
 
 func init() {
-	register("C16", familyCheck{&familySpec{Prop: "C16", Kinds: []string{"set"}, Ref: refSet, Random: setRandom, Sig: setSig, LooseDeadlines: true,
+	register("C16", familyCheck{&familySpec{Prop: "C16", Kinds: []string{"set"}, Ref: refSet, Random: setRandom, Sig: setSig, LooseDeadlines: true, Deep: []Action{cmd("SMEMBERS", "t"), cmd("SREM", "t", "a"), cmd("SADD", "t", "z"), cmd("SADD", "t", "a"), cmd("SCARD", "t"), cmd("SISMEMBER", "t", "z"), cmd("SINTER", "t", "t2"), cmd("SUNIONSTORE", "dst", "t", "t2"), cmd("SMOVE", "t", "t2", "a"), cmd("SMOVE", "t2", "t", "d"), cmd("SPOP", "t", "5"), cmd("SRANDMEMBER", "t", "2"), cmd("SDIFFSTORE", "t", "t", "t3"), cmd("SUNIONSTORE", "dst", "x", "dst")},
 		Title: "refSet (Go maps as finite sets: membership changes, union/intersection/difference over the named operands with absent = empty, STORE = replace destination, SMOVE, sized random selections)"}})
 }
 
